@@ -774,6 +774,8 @@ def run(ctx):
     from .c01_history import history_oracle, layout_oracle      # fitters with a history of rejected calls; non-default memory layouts
     history_oracle(ctx)
     layout_oracle(ctx)
+    from .c01_dataless import dataless_oracle      # ordering clause on calls WITHOUT data (interp_pts) on unsorted x
+    dataless_oracle(ctx)
     nb = boundary_oracle(ctx)
     ctx.note(f'boundary oracle: {nb} returning calls with zero / one / per-axis unequal values of every window-like parameter '
              '(*half_window*, smooth*, num_smooths, min_length, sections, min_fwhm) and every padding mode (alone and crossed with small '
@@ -789,6 +791,9 @@ def replay(rep):
     if case.get('kind') == 'oracle-param' and 'variant' in case:
         from .c01_pad import replay_boundary
         return replay_boundary({'method': case['method'], 'two_d': case['two_d'], 'kwargs': case['variant'], 'seed': case.get('seed', 0)})
+    if case.get('kind') == 'dataless':
+        from .c01_dataless import replay_dataless
+        return replay_dataless(case)
     if case.get('kind') == 'boundary':
         from .c01_pad import replay_boundary
         return replay_boundary(case)
